@@ -129,6 +129,8 @@ def run(rep):
                        "a run that straddles 00:00 UTC re-executes the affected cases", "TLC 1.8.0"]
     r = tlc_must_pass("MC_Calendar", "MC_Calendar_b" if quick else "MC_Calendar_thorough", workers=12, timeout=3000)
     rep.add_tlc("MC_Calendar", r)
+    import apalache
+    apalache.prove(rep, ['CalAgree'] if quick else ['CalAgree', 'CalLemma'])
     today = int(time.time()) // 86400
     items = gen_items(rep, today, "full", None, quick, "real")
     fakes = FAKE_DAYS[:1] if quick else FAKE_DAYS
